@@ -24,8 +24,10 @@ type Explorer struct {
 	NewRun    func() (setup func(*Sched), body func(), check func(*Sched) *Failure)
 	OnFailure func(prefix []int, s *Sched, f *Failure) // called once per failing execution
 	AfterRun  func(s *Sched)                           // always called when an execution has ended
+	Filter    func(p *Point, alt int) bool             // if set: only the alternatives it accepts are explored
 
 	Execs, Cut, States, Transitions int64
+	SlowExecs, SlowCut              int64
 	Capped                         bool
 	MaxPoints                      int64
 	visited                        sync.Map // state key -> smallest preemption count seen
@@ -58,7 +60,14 @@ func (e *Explorer) exec(prefix []int, prePreempt int) (*Sched, []work) {
 			return true
 		}
 	}
+	t0 := time.Now()
 	s := Run(cfg, setup, body)
+	if dt := time.Since(t0); dt > 500*time.Millisecond {
+		atomic.AddInt64(&e.SlowExecs, 1)
+		if s.Cut {
+			atomic.AddInt64(&e.SlowCut, 1)
+		}
+	}
 	if e.AfterRun != nil {
 		defer e.AfterRun(s)
 	}
@@ -94,8 +103,11 @@ func (e *Explorer) exec(prefix []int, prePreempt int) (*Sched, []work) {
 	// alternatives at points beyond the prefix
 	pre = 0
 	for i, p := range s.Points {
-		if i >= len(prefix) {
+		if i >= len(prefix) && !p.Frozen {
 			for alt := 1; alt < len(p.Enabled); alt++ {
+				if e.Filter != nil && !e.Filter(&s.Points[i], alt) {
+					continue
+				}
 				cost := pre
 				if p.RunningStill {
 					cost++
